@@ -563,8 +563,49 @@ func ruleOPS3(c *Ctx) []Obligation {
 			}
 			return true
 		})
+		// a target list hoisted into a local (others := term.OtherRetTargets) is read where the
+		// local is used, not where it is defined
+		sfd := c.funcDecl(succs)
+		sinfo := c.declPkg[sfd].TypesInfo
+		aliasDef := map[token.Pos]bool{}
+		ast.Inspect(sfd.Body, func(n ast.Node) bool {
+			as, ok := n.(*ast.AssignStmt)
+			if !ok || len(as.Lhs) != len(as.Rhs) {
+				return true
+			}
+			for i, l := range as.Lhs {
+				id, ok := l.(*ast.Ident)
+				se, ok2 := unparen(as.Rhs[i]).(*ast.SelectorExpr)
+				if !ok || !ok2 {
+					continue
+				}
+				if sel, ok := sinfo.Selections[se]; !ok || sel.Kind() != types.FieldVal {
+					continue
+				}
+				obj := sinfo.ObjectOf(id)
+				aliasDef[se.Pos()] = true
+				ast.Inspect(sfd.Body, func(m ast.Node) bool {
+					if u, ok := m.(*ast.Ident); ok && u != id && sinfo.ObjectOf(u) == obj {
+						inHint := false
+						for _, h := range hints {
+							if h[0] <= u.Pos() && u.Pos() < h[1] {
+								inHint = true
+							}
+						}
+						if _, has := first[se.Sel.Name]; !inHint && (!has || u.Pos() < first[se.Sel.Name]) {
+							first[se.Sel.Name] = u.Pos()
+						}
+					}
+					return true
+				})
+			}
+			return true
+		})
 		for _, e := range c.subjectFields(succs, -1) {
 			if e.Write && e.Direct {
+				continue
+			}
+			if aliasDef[e.Pos] {
 				continue
 			}
 			hint := false
@@ -576,7 +617,7 @@ func ruleOPS3(c *Ctx) []Obligation {
 			if hint {
 				continue
 			}
-			if _, ok := first[e.Field]; !ok {
+			if p0, ok := first[e.Field]; !ok || e.Pos < p0 {
 				first[e.Field] = e.Pos
 			}
 		}
